@@ -175,14 +175,25 @@ func ExecC17(c Case) *ev.Result {
 			if bi < 0 {
 				bi = -bi
 			}
-			for _, k := range bursts[bi] {
+			// N > 0: only the first N keys of the burst (the ones written first, i.e. those in the
+			// older directory when the burst crossed a rotation)
+			victims := bursts[bi]
+			if op.N > 0 && op.N < len(victims) {
+				victims = victims[:op.N]
+				w.Stats["delburst-partial"]++
+			}
+			for _, k := range victims {
 				if err := w.DB.Delete(w.ctx, k); err != nil {
 					r.Failf("%s: Delete(%q) failed: %v", what, k, err)
 					break
 				}
 				w.M.Write(0, k, model.Val{Del: true})
 			}
-			bursts = append(bursts[:bi], bursts[bi+1:]...)
+			if len(victims) < len(bursts[bi]) {
+				bursts[bi] = bursts[bi][len(victims):]
+			} else {
+				bursts = append(bursts[:bi], bursts[bi+1:]...)
+			}
 			if r.Fail == "" {
 				if err := w.GC(); err != nil {
 					r.Failf("%s: collector failed: %v", what, err)
